@@ -26,6 +26,7 @@ META["claim"] += " " + 'Also: pings without a ping_timeout against silent and sl
 META["claim"] += " " + 'Round 4: a process-wide default socket timeout below / above the ping timeout; an on_pong handler that takes longer than the ping timeout.'
 META["claim"] += " " + 'Round 5: a fragmented message straddling every ping/pong exchange; a key source that fails once in the ping thread (the following pings still go out).'
 META["claim"] += " " + 'Rounds 6-7: peers that ping but never pong, pongs just before each ping, unsolicited pongs; bytes / bytearray / memoryview payloads; an open callback still running when the first ping leaves.'
+META["claim"] += " " + 'Round 8: a first connection that ends with a ping outstanding, then a silent peer.'
 
 RATIOS = [1.1, 1.5, 1.9, 2, 2.5, 3, 5, 10]
 TIMEOUTS = [0.5, 1, 2, 3]
